@@ -121,6 +121,8 @@ def worker_main(argv):
   ap.add_argument('--shard', default='0/1')
   ap.add_argument('--out', required=True)
   ap.add_argument('--only', type=int, default=None)
+  ap.add_argument('--upto', type=int, default=None,
+                  help='replay: run this shard up to and including the case, report that case only')
   a = ap.parse_args(argv)
   si, sn = [int(x) for x in a.shard.split('/')]
 
@@ -152,6 +154,8 @@ def worker_main(argv):
     budget = check.QUICK_WALL if a.tier == 'quick' else check.THOROUGH_WALL
     budget = float(os.environ.get('VERIF_WALL', budget))
     idxs = [a.only] if a.only is not None else range(si, n, sn)
+    if a.upto is not None:
+      idxs = range(si, a.upto + 1, sn)
     import signal
 
     def _alarm(signum, frame):
@@ -160,7 +164,7 @@ def worker_main(argv):
     case_limit = float(os.environ.get('VERIF_CASE_LIMIT', 45 if a.tier == 'quick' else 180))
     out['hung'] = []
     for idx in idxs:
-      if boot.REAL_MONO() - t0 > budget and a.only is None:
+      if boot.REAL_MONO() - t0 > budget and a.only is None and a.upto is None:
         out['cut_short'] = True
         break
       rng = case_rng(a.prop, a.seed, idx)
@@ -177,6 +181,8 @@ def worker_main(argv):
         continue
       finally:
         signal.setitimer(signal.ITIMER_REAL, 0)
+      if a.upto is not None and idx != a.upto:
+        continue      # history only: the cases before the replayed one ran to reproduce its starting state
       out['evaluations'] += 1
       out['obligations'] += res.obligations
       if res.nontrivial and res.sig is not None:
@@ -284,10 +290,12 @@ def runner_main(argv):
   env.setdefault('VERIF_REPO', '/repo')
 
   only = None
+  replay_workers = None
   if a.replay:
     with open(a.replay) as f:
       rp = json.load(f)
     seed, tier, only = rp['seed'], rp['tier'], rp['case']
+    replay_workers = rp.get('workers')
     a.no_evidence = True
 
   n = check['n_cases'][tier]
@@ -301,7 +309,11 @@ def runner_main(argv):
     outp = os.path.join(tmpd, 'w%d.json' % i)
     cmd = [PY, '-m', 'vlib.worker', '--prop', pid, '--tier', tier, '--seed', str(seed),
            '--shard', '%d/%d' % (i, nworkers), '--out', outp]
-    if only is not None:
+    if only is not None and replay_workers:
+      # same shard, same history as the run that recorded the violation
+      cmd[cmd.index('--shard') + 1] = '%d/%d' % (only % replay_workers, replay_workers)
+      cmd += ['--upto', str(only)]
+    elif only is not None:
       cmd += ['--only', str(only)]
     errp = open(os.path.join(tmpd, 'w%d.err' % i), 'w')
     procs.append((subprocess.Popen(cmd, cwd=VERIF, env=env, stdout=errp, stderr=errp), outp, errp))
@@ -367,6 +379,22 @@ def runner_main(argv):
     else:
       unknown.append(v)
 
+  if a.replay:
+    # one case (with the history of its shard): no coverage floors, just the verdict on that case
+    problems = [p_ for p_ in problems if p_.startswith('worker')]
+    mine = [v for v in unknown if v.get('case') == only]
+    for v in mine[:5]:
+      print('VIOLATION property=%s replay=%s' % (pid, a.replay))
+      print('  kind=%s case=%d: %s' % (v['kind'], v['case'], v['msg'][:600]))
+    if mine:
+      print('%s replay of case %d [%s, seed %d]: reproduced, %d violating observation(s)' % (pid, only, tier, seed, len(mine)))
+      return 1
+    if problems or ev == 0:
+      print('INCONCLUSIVE property=%s reason=replay could not run the case: %s' % (pid, (problems or ['not executed'])[0][-500:]))
+      return 2
+    print('%s replay of case %d [%s, seed %d]: no violation on the current tree' % (pid, only, tier, seed))
+    return 0
+
   # coverage floors => inconclusive
   if ev == 0:
     problems.append('no case was executed')
@@ -392,7 +420,7 @@ def runner_main(argv):
       seen_kinds[v['kind']] = seen_kinds.get(v['kind'], 0) + 1
       rp = os.path.join('replays', '%s-%d-%s-%d.json' % (pid, seed, tier, v['case']))
       with open(os.path.join(VERIF, rp), 'w') as f:
-        json.dump({'property': pid, 'seed': seed, 'tier': tier, 'case': v['case'],
+        json.dump({'property': pid, 'seed': seed, 'tier': tier, 'case': v['case'], 'workers': nworkers,
                    'violation': v}, f, indent=1)
       replay_paths.append((rp, v))
 
